@@ -138,9 +138,23 @@ pub fn judge_missing_arg(tx: &tir::Tx, t: &mut Tape, rc: &mut RCase, rendered: &
     }
     let all: BTreeMap<String, ArgValue> = params.iter().map(|(k, ty)| (k.clone(), arg_for(ty, t))).collect();
     let keys: Vec<&String> = params.keys().collect();
-    let drop = keys[t.pick(keys.len())].clone();
+    // withhold one reported argument (sometimes several) and add any number of undeclared ones: the
+    // refusal must not depend on what else the map carries or on how many entries it has
+    let n_drop = if keys.len() > 1 && t.chance(1, 4) { 2 } else { 1 };
+    let mut dropped: Vec<String> = vec![];
     let mut args = all.clone();
-    args.remove(&drop);
+    for _ in 0..n_drop {
+        let k = keys[t.pick(keys.len())].clone();
+        if args.remove(&k).is_some() {
+            dropped.push(k);
+        }
+    }
+    let n_extra = [0usize, 0, 1, dropped.len(), 3][t.pick(5)];
+    for i in 0..n_extra {
+        args.insert(format!("zz_undeclared_{}", i), ArgValue::Int(i as i128));
+    }
+    rc.label(&format!("missing_arg:withheld={},undeclared_extras={}", dropped.len(), n_extra));
+    let drop = dropped.join(",");
     let store = MemStore::new((0..4).map(some_utxo).collect());
     let mut compiler = pipeline::compiler(&Cfg::default());
     let res = guard(|| block_on(tx3_resolver::resolve_tx(AnyTir::V1Beta0(tx.clone()), &args, &mut compiler, &store, 3)));
@@ -148,7 +162,7 @@ pub fn judge_missing_arg(tx: &tir::Tx, t: &mut Tape, rc: &mut RCase, rendered: &
         Err(p) => Err(Failure::new(format!("panic:{}", p.sig()), p.message, rendered())),
         Ok(Err(tx3_resolver::Error::MissingTxArg { key, .. })) => {
             // any missing key is fine when several are missing; here exactly one is
-            if key != drop {
+            if !dropped.contains(&key) {
                 return Err(Failure::new("missing_arg_names_wrong_parameter", format!("dropped {} but error names {}", drop, key), rendered()));
             }
             rc.label("missing_arg_judged");
